@@ -221,10 +221,15 @@ func Main(t *testing.T, h Hooks) {
 	c := &Ctx{T: t, H: h, Tier: *flagTier, Stats: st, Worker: *flagWorker, Nwork: *flagWorkers}
 	c.Known = loadKnown()
 	HangHandler = func(sc *Scenario) {
+		if *flagReplay != "" {
+			// a hang with a live progress ticker cannot return through the bubble
+			fmt.Printf("REPLAY-VIOLATION %s/hang\nno progress possible before the fake-time watchdog (progress ticker alive)\n", p.ID)
+			os.Exit(1)
+		}
 		cp := *sc
-		cp.Expect = &ExpectInfo{Class: "C10/hang", Detail: "no progress possible before the fake-time watchdog"}
+		cp.Expect = &ExpectInfo{Class: p.ID + "/hang", Detail: "no progress possible before the fake-time watchdog"}
 		cp.Save(filepath.Join(out, "violations", "hang-"+sc.Hash()+".json"))
-		st.Violations = append(st.Violations, ViolationRecord{Class: "C10/hang", File: filepath.Join(out, "violations", "hang-"+sc.Hash()+".json")})
+		st.Violations = append(st.Violations, ViolationRecord{Class: p.ID + "/hang", File: filepath.Join(out, "violations", "hang-"+sc.Hash()+".json")})
 		writeStats(out, st)
 		os.Exit(3)
 	}
